@@ -1329,6 +1329,38 @@ enumerate(void)
 		}
 	} else if (!strcmp(mode, "tzswitch")) {
 		enum_tzswitch();
+	} else if (!strcmp(mode, "selfex")) {
+		/* a rule that is its own exception rule: the set is empty, the first call must say so within the budget
+		 * (the filter walks the two streams in step; for an unlimited rule that is a walk to the end of time) */
+		static const char *const tails[] = {"", ";INTERVAL=2", ";BYMONTH=1", ";COUNT=100000"};
+		static const char *const dts[] = {"DTSTART:20240229T103015", "DTSTART;VALUE=DATE:20240229"};
+		for (int f = RF_YEARLY; f <= RF_SECONDLY; f++) {
+			for (size_t t = 0; t < sizeof(tails) / sizeof(*tails); t++) {
+				for (size_t d = 0; d < 2; d++) {
+					struct cas_s cs;
+					struct res_s r;
+					char rrule[200], extra[300];
+					if (d && f >= RF_HOURLY) continue;
+					if (!vd_next()) continue;
+					memset(&cs, 0, sizeof(cs));
+					cs.freq = f;
+					cs.dtline = dts[d];
+					cs.emb = "its-own-exrule";
+					snprintf(cs.shape, sizeof(cs.shape), "%s/self-excluded/%s", fnm[f], tails[t][0] ? (strstr(tails[t], "COUNT") ? "COUNT" : "limited-part") : "plain");
+					snprintf(rrule, sizeof(rrule), "FREQ=%s%s", fnm[f], tails[t]);
+					snprintf(extra, sizeof(extra), "EXRULE:%s\n", rrule);
+					cs.rrule = rrule;
+					cs.extra = extra;
+					parse_rule(&cs.pr, rrule);
+					if (run(&cs, &r) && r.n > 0) {
+						char sig[320];
+						snprintf(sig, sizeof(sig), "empty-yields/%s/%s", cs.shape, cs.emb);
+						vd_viol(sig, "every occurrence is excepted, yet the stream yields %ld", r.n);
+					}
+					vd_nontrivial();
+				}
+			}
+		}
 	} else {
 		fprintf(stderr, "c09: unknown mode %s\n", mode);
 		exit(2);
